@@ -115,7 +115,7 @@ Verdict(c) ==
                        Hue == Add(UAe(c, unc), Mul(Qt(33, 100), Mul(Nv(c), Vol(c, unc))))
                    IN [k |-> "exact", t |-> Div(One, Add(Rf, Div(AreaP, Hue)))]
     [] c.bounds = "GROUND" ->
-         LET z == Qt(c.depth, 100)
+         LET z == Qt(IF c.depth < 0 THEN 0 ELSE c.depth, 100)     \* (a floor above the ground level is not buried)
              Uw == UExt(R, c.tilt)
              \* slab of construction REF in the wall and roof cases, the stack under test in the slab case
              Rslab == IF c.tilt = "BOTTOM" THEN R ELSE RRef
@@ -139,7 +139,7 @@ Verdict(c) ==
                                     Div(LambdaGnd, Add(Mul(Qt(457, 1000), B), blim)) >>),
                               Div(Mul(Qt(2, 1), dpsi), B))]
               [] c.tilt = "SIDE" ->
-                   IF c.depth = 0 THEN [k |-> "exact", t |-> Uw]
+                   IF c.depth <= 0 THEN [k |-> "exact", t |-> Uw]
                    ELSE LET dw == Div(LambdaGnd, Uw)
                             dtm == MinT(dt, dw)
                             Ubw == Mul(Mul(Div(Mul(Qt(2, 1), LambdaGnd), Mul(Pi, z)),
